@@ -599,6 +599,18 @@ def blobSeekWith (checked : Bool) (start len target : Nat) : Out Nat :=
 
 def blobSeek (start len target : Nat) : Out Nat := blobSeekWith Gen.C22.BLOB_CHECKED start len target
 
+/-- `blob_reader(id)?.seek(SeekFrom::Start(target))` for a Plain frame `(start, len)` of the TOC.
+    `verifies` = `blob_reader_from_frame` streams the `len` stored bytes through the hasher before it
+    hands out the reader (a short read or a different hash is `ChecksumMismatch`); `ckOk` = the hash
+    of those bytes equals `frame.checksum` (black box: blake3). -/
+def blobOpenSeekWith (verifies checked : Bool) (fileLen start len target : Nat) (ckOk : Bool) : Out Nat :=
+  if start ≥ 2^63 then .err "io"
+  else if verifies && decide (len > 0) && (decide (start + len > fileLen) || !ckOk) then .err "checksum"
+  else blobSeekWith checked start len target
+
+def blobOpenSeek (fileLen start len target : Nat) (ckOk : Bool) : Out Nat :=
+  blobOpenSeekWith Gen.C22.BLOB_OPEN_VERIFIES Gen.C22.BLOB_CHECKED fileLen start len target ckOk
+
 /-! ### composition: what `open_locked` runs before / between the black boxes -/
 
 /-- run a loader when the manifest is present; its value is not used by the rest of the model -/
